@@ -313,12 +313,12 @@ pub fn main(args: &[String]) -> i32 {
                     };
                     if bad {
                         println!(
-                            "{{\"automaton\":{},\"method\":{},\"haystack_hex\":\"{}\",\"haystack\":{},\"expected\":{:?},\"got\":{}}}",
+                            "{{\"automaton\":{},\"method\":{},\"haystack_hex\":\"{}\",\"haystack\":{},\"expected\":{},\"got\":{}}}",
                             crate::jstr(&e.name),
                             crate::jstr(m),
                             plan::hex(&h),
                             crate::jstr(&plan::show_bytes(&h)),
-                            exp,
+                            format!("{exp:?}").replace('(', "[").replace(')', "]"),
                             crate::jstr(&format!("{got:?}"))
                         );
                         return 1;
